@@ -17,19 +17,9 @@ from harness.props import compare_common as cc
 MANIFEST = dict(
     category="proof",
     technique="Lean 4 theorems over a hand-written model of the compare engine + differential correspondence with the implementation",
-    text="Lean theorems (unbounded in tree size and depth, for every flag record, which covers every configuration reachable "
-         "through the setters by C07_reachable / C07_reachable_iff): C07_direct_exact - on recursively converted trees with "
-         "unique dictionary keys direct_compare reports no difference iff the trees are structurally equal (same keys, same "
-         "list lengths and order, leaves equal with equal type); C07_default_exact - the default compare reports no difference "
-         "iff the trees are equal up to the order of the non-record items inside each list, under the hypothesis NoStrCollision "
-         "(str() is injective on the non-record list items and never empty: known finding C07-b, counter-example theorem "
-         "C07_collision_cex) ; C07_flags_only_add_detail - verdict and core entries do not depend on the flags. The model follows "
-         "the code with fix patches C07-a (bound method handed down as one_of_list_compare), C08-a, C09-a applied and is compared "
-         "with the implementation on pairs of trees (equal / 0-5 edits / permuted / unrelated) under random setter histories; the "
-         "statement itself is executed on the implementation with Python-side oracles.",
-    note="str()/repr() of values, xpath_match and the flag machine are modelled and validated by their own streams; floats are "
-         "opaque lexemes (NaN, infinities, -0.0 excluded); ints stay within float range when the delta flag is set.",
-    design_ref="5/C07",
+    text="Lean theorems, unbounded in tree size/depth, stated for EVERY flag record (C07_reachable / C07_reachable_iff: the configurations reachable through any history of set__flag_compare_* calls are exactly those satisfying FlagInv, so 'every flag record' covers them): C07_direct_exact - on recursively converted trees with roots of the same kind direct_compare returns and its differences list is empty iff the trees are structurally equal (deq: same key set with equal values, same list length and order, leaves equal with equal type, None only equals None); C07_default_exact_partial - the default compare (no composite key) reports nothing iff the trees are equal up to the order of the non-record items inside each list (eqv), under the hypothesis NoStrCollision (str() injective on the non-record list items and never empty) - the full statement C07_default_exact_stmt is refuted on the pinned tree by C07_collision_cex / C07_emptykey_cex (known finding C07-b; C07-c is the dict-key-order variant seen by the Python oracle); C07_flags_only_add_detail / C07_verdict_flags - for every option record two flag records give the same exception class or the same number of lines and the same core entries (numeric deltas, equal-lists, shown places and the difftypes/not_equal placement are the only things that vary). The model (lean/N0Verif/Model/Compare.lean) follows n0dict.compare/direct_compare, n0list.compare/direct_compare, xpath_match, generate_composite_keys, update_extend and the flag machine branch by branch for the code WITH fix patches C07-a, C08-a, C09-a applied; it is compared with the implementation on generated pairs of trees (verdict, entry sets with rendered paths and values, number of prose lines, exception class) and the statement itself is executed on the implementation with Python-side oracles.",
+    note='str()/repr() of values, xpath_match and the flag machine are modelled and validated by their own streams (cmp.keys, cmp.match, cmp.flags incl. all histories of length <= 3/4); floats are opaque lexemes (NaN, infinities, -0.0 excluded); ints stay within float range; dictionary keys unique (Python dicts).',
+    design_ref='5/C07',
 )
 
 EVAL = {}
